@@ -24,6 +24,15 @@ CLAIMED = {
              'resolved (specifier + ".ts") against the importing file\'s directory denotes exactly the imported file. Decided by z3 on '
              'every feasible path of the real MIR of import_path/diff_paths/absolute.',
         ref='DESIGN.md 4 (C08)'),
+    'C05': dict(
+        text='For K types exported to one file (K=2 in full, K=3 with reduced variation) with symbolic one/two-letter names (prefix pairs, '
+             'optional <T>), a doc block whose body is 3 symbolic bytes or one of four fixed blocks, symbolic import blocks and bodies '
+             '(multi-line, string literal), every export order, the real export_and_merge/merge (MIR) over a file-system + registry model '
+             'yields after every step exactly the independently constructed canonical file (notice, union of imports sorted, declarations '
+             'intact in name order) and a re-export changes nothing; no panic, no access outside the mutex. Thread interleavings are '
+             'covered as orders of critical sections (the lock-discipline assertion is checked on every path). The class of doc blocks '
+             'containing an empty line is a listed known finding; everything outside it must hold.',
+        ref='DESIGN.md 4 (C05)'),
 }
 
 NOT_APPLICABLE = {
